@@ -588,8 +588,13 @@ fn descendant_and_self(node: dom::XmlNode) -> Vec<dom::XmlNode> {
 fn following(node: dom::XmlNode) -> Vec<dom::XmlNode> {
     let mut nodes = vec![];
 
-    for n in following_sibling(node) {
+    for n in following_sibling(node.clone()) {
         nodes.append(&mut descendant_and_self(n));
+    }
+
+    // whatever follows an ancestor follows the node as well
+    if let Some(parent) = node.parent_node() {
+        nodes.append(&mut following(parent));
     }
 
     nodes
@@ -622,10 +627,15 @@ fn namespace(node: dom::XmlNode) -> Vec<dom::XmlNode> {
 fn preceding(node: dom::XmlNode) -> Vec<dom::XmlNode> {
     let mut nodes = vec![];
 
-    for p in preceding_sibling(node) {
+    for p in preceding_sibling(node.clone()) {
         let mut desc = descendant_and_self(p);
         desc.reverse();
         nodes.append(&mut desc);
+    }
+
+    // whatever precedes an ancestor (the ancestors themselves excluded) precedes the node as well
+    if let Some(parent) = node.parent_node() {
+        nodes.append(&mut preceding(parent));
     }
 
     nodes
